@@ -8,13 +8,16 @@
  *                 length is NOT guaranteed to equal strlen (the libxml backend and hostile input do not guarantee it)
  *   close_tag     0 or -1;  close_child / close_content: no effect visible to the common code
  * i.e. the common code is verified for ANY sequence of attributes, children and contents a backend may deliver.
- * Other dependencies: strtoul family stubs (value <= XNUM, end anywhere), atoi -> any int, getenv -> NULL, hwloc_type_sscanf
+ * Other dependencies: strtoul family stubs (any value, end anywhere; the nbobjs attribute is the job constant XNBOBJS), atoi -> any int, getenv -> NULL, hwloc_type_sscanf
  * contract stub, hwloc_internal_distances_add_by_index contract stub (checks that the arrays it receives have nbobjs and
  * nbobjs*nbobjs readable entries and takes ownership). */
 #include "verif_prelude.h"
 #include <stdio.h>
 #ifndef XA
 #define XA 5
+#endif
+#ifndef XA2
+#define XA2 2      /* attributes per child element */
 #endif
 #ifndef XC
 #define XC 3
@@ -23,13 +26,27 @@
 #define XV 2
 #endif
 #ifndef XB
-#define XB 4
+#define XB 3
 #endif
 #ifndef XNUM
 #define XNUM 7
 #endif
-#define STRTOUL_MAX XNUM
-#include "strtoul.h"
+/* number parser: end pointer anywhere inside the string, value arbitrary -- except for the attribute the harness marks as the
+ * element's object count (verif_num_is_count): that one is the constant XNBOBJS of the job, so that the arrays sized from it
+ * have a concrete size (a malloc of symbolic size times a symbolic store index exhausts the SAT solver's memory) */
+#ifndef XNBOBJS
+#define XNBOBJS 2
+#endif
+int verif_num_is_count;
+unsigned long strtoul(const char *nptr, char **endptr, int base)
+{
+  size_t len = strlen(nptr), k = nondet_size_t();
+  (void)base;
+  __CPROVER_assume(k <= len);
+  if (endptr) *endptr = (char *)nptr + k;
+  if (verif_num_is_count) return XNBOBJS;
+  return nondet_ulong();
+}
 unsigned long long strtoull(const char *nptr, char **endptr, int base) { return strtoul(nptr, endptr, base); }
 int atoi(const char *s) { (void)s[0]; return nondet_int(); }
 char *getenv(const char *name) { (void)name; return (char *)0; }
